@@ -557,7 +557,7 @@ func (s *space) reuse(c *mc.Ctx) {
 		e := s.elemByName(names[i])
 		p := s.pts[e*ptalph.NumReps+(i+1)%ptalph.NumReps]
 		el := s.elems[e]
-		cas := map[string]string{"point": el.Name + "/" + ptalph.RepName[p.rep]}
+		cas := map[string]string{"point": el.Name + "/" + p.repName()}
 		var x *curve.ExpandedEdwardsPoint
 		var rx *curve.ExpandedRistrettoPoint
 		var tb *curve.EdwardsBasepointTable
